@@ -36,7 +36,9 @@ def history(rng, n):
         ckeys = [k for k in (gen.key(i) for i in range(10)) if k.hex in cs["delegations"]["root"]["pubkeys"]]
         cthr = cs["delegations"]["root"]["threshold"]
         v = cs["version"]
-        kind = rng.choice(["honest", "honest", "honest", "rotate", "rotate", "replay", "rollback", "skip", "revoked", "insufficient", "retyped-twin",
+        # (the first offers of every history are fixed: an honest update, then a forgery carrying the signature entries of what was just accepted, then a retyped twin)
+        forced = {0: "honest", 1: "stolen-signatures", 2: "retyped-twin", 3: "replay"}.get(len(offers))
+        kind = forced or rng.choice(["honest", "honest", "honest", "rotate", "rotate", "replay", "rollback", "skip", "revoked", "insufficient", "retyped-twin",
                            "self-appointed", "raw-sigs", "same-version", "junk", "honest-extra-junk", "superset-self-appointed", "superset-self-appointed", "odd-version", "stolen-signatures"])
         if kind in ("honest", "honest-extra-junk"):
             o = signed_root(rng, ckeys, rng.randint(1, len(ckeys)), v + 1, rng.sample(ckeys, cthr))
